@@ -2,6 +2,7 @@ import Girc.Gen.Funcs
 import Girc.Drv.EventOps
 import Girc.Drv.PureOps
 import Girc.Model.Modes
+import Girc.Model.EventHelpers
 /-
   Driver ops `gen.<GoName>`: evaluate the GENERATED functions of Girc/Gen/Funcs.lean (the translator's
   output), printing the same canonical format as the op of the corresponding hand-written model
@@ -59,6 +60,93 @@ def handleGen (op : String) (args : List String) : Option String :=
   | "gen.Tags.Get", [t, k] => do                                                                 -- tagget
       let tg ← argTags t; let k ← arg k
       pure (genShow (fun (r : Bytes × Bool) => if r.2 then hx r.1 else "-") (Fn.Tags_Get tg k))
+  -- serialiser side (cap_tags.go / event.go)
+  | "gen.Tags.Bytes", [t] => do let tg ← argTags t; pure (genShow hx (Fn.Tags_Bytes tg))        -- tagsbytes
+  | "gen.Tags.Len", [t] => do let tg ← argTags t; pure (genShow toString (Fn.Tags_Len tg))      -- taglen (new model op)
+  | "taglen", [t] => do let tg ← argTags t; pure (toString (tagsLen tg))
+  | "gen.Tags.writeTo", [t] => do                                                                 -- tagswrite (new model op)
+      let tg ← argTags t
+      pure (genShow (fun (r : Int × Option Go.GoErr × Bytes) => hx r.2.2 ++ " " ++ toString r.1) (Fn.Tags_writeTo tg []))
+  | "tagswrite", [t] => do let tg ← argTags t; pure (hx (tagsWrite tg) ++ " " ++ toString (tagsWrite tg).length)
+  | "gen.Tags.Set", [t, k, v] => do                                                               -- tagset
+      let tg ← argTags t; let k ← arg k; let v ← arg v
+      match tg with
+      | none => none
+      | some _ => pure (genShow (fun (r : Option Go.GoErr × Option Tags) =>
+          if r.1.isSome then "err" else showTags r.2) (Fn.Tags_Set tg k v))
+  | "gen.Event.Bytes", [t, s, c, p] => do                                                         -- bytes
+      let e ← argEvent t s c p; pure (genShow hx (Fn.Event_Bytes (some e)))
+  | "gen.Event.Len", [t, s, c, p] => do                                                           -- len
+      let e ← argEvent t s c p; pure (genShow toString (Fn.Event_Len (some e)))
+  | "gen.Event.LenOpts", [t, s, c, p, f] => do                                                    -- len
+      let e ← argEvent t s c p; pure (genShow toString (Fn.Event_LenOpts (some e) (f == "1")))
+  | "gen.Source.Bytes", [s] => do                                                                 -- sourcebytes (1st field)
+      let src ← argSource s; pure (genShow hx (Fn.Source_Bytes src))
+  | "gen.Source.String", [s] => do                                                                -- sourcebytes (1st field)
+      let src ← argSource s; pure (genShow hx (Fn.Source_String src))
+  -- event.go query helpers (new model ops below, same formats)
+  | "gen.Event.Last", [t, s, c, p] => do let e ← argEvent t s c p; pure (genShow hx (Fn.Event_Last (some e)))
+  | "last", [t, s, c, p] => do let e ← argEvent t s c p; pure (hx (eventLast e))
+  | "gen.Event.IsCTCP", [t, s, c, p] => do
+      let e ← argEvent t s c p
+      pure (genShow (fun (r : Bool × Option CTCPEvent) => bl r.1 ++ " " ++ showCtcp r.2) (Fn.Event_IsCTCP (some e)))
+  | "isctcp", [t, s, c, p] => do
+      let e ← argEvent t s c p; let r := isCTCP e; pure (bl r.1 ++ " " ++ showCtcp r.2)
+  | "gen.Event.IsAction", [t, s, c, p] => do let e ← argEvent t s c p; pure (genShow bl (Fn.Event_IsAction (some e)))
+  | "isaction", [t, s, c, p] => do let e ← argEvent t s c p; pure (bl (isAction e))
+  | "gen.Event.StripAction", [t, s, c, p] => do
+      let e ← argEvent t s c p; pure (genShow hx (Fn.Event_StripAction (some e)))
+  | "stripaction", [t, s, c, p] => do
+      let e ← argEvent t s c p
+      pure (match stripAction e with | some b => hx b | none => "panic:slice")
+  | "gen.Event.IsFromChannel", [t, s, c, p] => do
+      let e ← argEvent t s c p; pure (genShow bl (Fn.Event_IsFromChannel (some e)))
+  | "isfromchannel", [t, s, c, p] => do let e ← argEvent t s c p; pure (bl (isFromChannel e))
+  | "gen.Event.IsFromUser", [t, s, c, p] => do
+      let e ← argEvent t s c p; pure (genShow bl (Fn.Event_IsFromUser (some e)))
+  | "isfromuser", [t, s, c, p] => do let e ← argEvent t s c p; pure (bl (isFromUser e))
+  | "gen.Source.ID", [s] => do let src ← argSource s; pure (genShow hx (Fn.Source_ID src))
+  | "sourceid", [s] => do
+      match ← argSource s with
+      | some src => pure (hx (sourceID src))
+      | none => none
+  | "gen.Source.Equals", [a, b] => do
+      let x ← argSource a; let y ← argSource b; pure (genShow bl (Fn.Source_Equals x y))
+  | "sourceeq", [a, b] => do let x ← argSource a; let y ← argSource b; pure (bl (sourceEq x y))
+  | "gen.Source.IsHostmask", [s] => do let src ← argSource s; pure (genShow bl (Fn.Source_IsHostmask src))
+  | "gen.Source.IsServer", [s] => do let src ← argSource s; pure (genShow bl (Fn.Source_IsServer src))
+  | "ishostmask", [s] => do
+      match ← argSource s with
+      | some src => pure (bl (isHostmask src))
+      | none => none
+  | "isserver", [s] => do
+      match ← argSource s with
+      | some src => pure (bl (isServer src))
+      | none => none
+  -- modes.go
+  | "gen.parseUserPrefix", [a] => do
+      let s ← arg a
+      pure (genShow (fun (r : Bytes × Bytes × Bool) => hx r.1 ++ " " ++ hx r.2.1 ++ " " ++ bl r.2.2) (Fn.parseUserPrefix s))
+  | "parseuserprefix", [a] => do
+      let s ← arg a; let r := parseUserPrefix s; pure (hx r.1 ++ " " ++ hx r.2.1 ++ " " ++ bl r.2.2)
+  | "gen.CModes.hasArg", [cm, up, set, m] => do                       -- CModes built by the model's NewCModes(cm, up)
+      let cm ← arg cm; let up ← arg up; let m ← arg m
+      match m with
+      | [b] => pure (genShow (fun (r : Bool × Bool) => bl r.1 ++ " " ++ bl r.2) (Fn.CModes_hasArg (some (newCModes cm up)) (set == "1") b))
+      | _ => none
+  | "hasarg", [cm, up, set, m] => do
+      let cm ← arg cm; let up ← arg up; let m ← arg m
+      match m with
+      | [b] => let r := (newCModes cm up).hasArg (set == "1") b; pure (bl r.1 ++ " " ++ bl r.2)
+      | _ => none
+  -- format.go
+  | "gen.Fmt", [a] => do let s ← arg a; pure (genShow hx (Fn.Fmt s))                             -- fmt
+  | "gen.TrimFmt", [a] => do                                                                     -- trimfmt (two orders)
+      let s ← arg a
+      let o1 := Fn.fmtColors.map (·.1); let o2 := Fn.fmtCodes.map (·.1)
+      pure (genShow hx (Fn.TrimFmt o1 o2 s) ++ " " ++ genShow hx (Fn.TrimFmt o1.reverse o2.reverse s))
+  | "gen.StripRaw", [a] => do                                                                    -- stripraw
+      let s ← arg a; pure (genShow hx (Fn.StripRaw (Fn.fmtCodes.map (·.1)) s))
   | _, _ => none
 
 end Girc.Drv
